@@ -95,7 +95,7 @@ def project(events: list) -> list:
     out = []
     for e in events:
         if e[0] == "result":
-            if e[2] != "int":
+            if e[2] not in ("int", "uint"):      # literal markers may be typed nat
                 out.append(["non-int result " + str(e[1]), 0])
             else:
                 out.append([e[1], e[3]])
